@@ -156,7 +156,7 @@ pub fn cmd_worker(args: &[String]) -> u8 {
             return 2;
         };
         let (out, st) = plans::run_plan(&plan, run_seed, false);
-        res.evaluations += 1;
+        res.evaluations += out.probes.get("sub_runs").cloned().unwrap_or(1);
         res.sim_us += st.sim_us;
         res.polls += st.polls;
         res.model_states += out.model_states;
